@@ -1132,3 +1132,56 @@ Proof.
   pose proof (usage_never_increases true false nl d1) as A.
   destruct (clean_pass true nl d1) as [dl2 d2]. cbn [snd] in *. split; [lia | exact R2].
 Qed.
+
+(* ------------------------------------------------------------------------------------------ *)
+(* upgraded databases, restarts on a wiped directory                                           *)
+(* ------------------------------------------------------------------------------------------ *)
+
+Lemma migrated_own legacy post sb st fl dk r : In r legacy ->
+  In (fst (fst r)) (own_hashes (migrated_db legacy post sb st fl dk)).
+Proof.
+  intro H. apply own_hashes_In. exists (migrate_row r). split; [|split; reflexivity].
+  unfold migrated_db. cbn [blobs]. apply in_or_app. left. apply in_map. exact H.
+Qed.
+
+(* nothing that was stored before the upgrade is ever deleted by a cleanup pass, over every later history *)
+Lemma migrated_never_deleted legacy post sb st fl dk ops r :
+  hashes_unique (migrated_db legacy post sb st fl dk) -> In r legacy -> ~ In (fst (fst r)) (user_deleted ops) ->
+  (forall dl, In dl (fst (run ops (migrated_db legacy post sb st fl dk))) -> ~ In (fst (fst r)) dl) /\
+  In (fst (fst r)) (own_hashes (snd (run ops (migrated_db legacy post sb st fl dk)))).
+Proof.
+  intros Hn Hr Hu. pose proof (history_never_own ops _ _ Hn (migrated_own legacy post sb st fl dk r Hr) Hu) as [A [B _]].
+  split; assumption.
+Qed.
+
+Lemma add_orphans_fin now sizes hs : forall bl b, In b (add_orphans now sizes hs bl) ->
+  In b bl \/ (In (b_hash b) hs /\ b_fin b = true).
+Proof.
+  induction hs as [|h r IH]; intros bl b H; simpl in H; [left; exact H|].
+  apply IH in H as [H|[H1 H2]]; [|right; split; [right; exact H1 | exact H2]].
+  destruct (mem h (map b_hash bl)); [left; exact H|].
+  apply in_app_or in H as [H|[<-|[]]]; [left; exact H|]. right. split; [left; reflexivity | reflexivity].
+Qed.
+
+(* after a restart only blobs whose file is really in the blob directory are 'finished', i.e. charged to any class:
+   an emptied directory leaves nothing charged *)
+Lemma setup_only_present now sizes d b : In b (blobs (setup now sizes d)) -> b_fin b = true -> In (b_hash b) (disk d).
+Proof.
+  unfold setup. cbn [blobs]. intros H Hf. apply add_orphans_fin in H as [H|[H _]]; [|exact H].
+  apply in_map_iff in H as [x [<- Hx]]. simpl in *. apply mem_In. exact Hf.
+Qed.
+
+Lemma nsum_zero {A} (f : A -> N) l : (forall x, In x l -> f x = 0) -> nsum (map f l) = 0.
+Proof. induction l as [|x t IH]; intro H; simpl; [reflexivity|]. rewrite (H x), IH; auto; [intros; apply H; right; assumption | left; reflexivity]. Qed.
+
+Lemma setup_empty_dir_no_usage now sizes d net : disk d = [] -> used_mb net (setup now sizes d) = 0.
+Proof.
+  intro He.
+  assert (Z : forall b, In b (blobs (setup now sizes d)) -> b_fin b = false).
+  { intros b Hb. destruct (b_fin b) eqn:E; [|reflexivity]. apply (setup_only_present now sizes d b Hb) in E. rewrite He in E. contradiction. }
+  assert (T : forall f : blob -> N, (forall b, b_fin b = false -> f b = 0) -> nsum (map f (blobs (setup now sizes d))) = 0).
+  { intros f Hf. apply nsum_zero. intros b Hb. apply Hf, Z, Hb. }
+  destruct net; unfold used_mb, net_bytes, content_bytes, private_bytes.
+  - rewrite T; [reflexivity|]. intros b Hb. unfold net_term, counted. rewrite Hb. reflexivity.
+  - rewrite !T; [reflexivity | |]; intros b Hb; unfold private_term, content_term, counted; rewrite Hb; reflexivity.
+Qed.
